@@ -7,6 +7,7 @@ INVARIANT Cl_NonNegative
 INVARIANT Cl_Identity
 INVARIANT Cl_Raises
 INVARIANT Cl_CrossComponent
+INVARIANT Cl_SameObjectTwice
 INVARIANT Cl_Factors
 INVARIANT Step_New
 INVARIANT Step_Conv
